@@ -704,6 +704,7 @@ type specOpts struct {
 	failPct                    int  // probability (percent) that a command fails
 	wantDefault                int  // 0 never, 1 maybe, 2 always
 	wantClean                  bool // may define a task named clean
+	cleanLate                  bool // always define a task named clean, late in the file so that it can depend on others
 	maxVars                    int
 }
 
@@ -735,6 +736,13 @@ func (g *gen) genSpec(o specOpts) ([]varSpec, []taskSpec) {
 	}
 	if o.wantClean && nt >= 2 && g.chance(1, 6) {
 		names[0] = "clean"
+	}
+	if o.cleanLate && nt >= 2 {
+		if hasDefault {
+			names[nt-2] = "clean"
+		} else {
+			names[nt-1] = "clean"
+		}
 	}
 	var tasks []taskSpec
 	for ti, n := range names {
@@ -1081,6 +1089,8 @@ func (g *gen) newCase(so specOpts, world int, to treeOpts) *caseT {
 	return c
 }
 
+func (g *gen) pickFlags(sets [][]string) []string { return sets[g.rng.Intn(len(sets))] }
+
 func pickWorld(g *gen, invalidPct int) int {
 	if g.rng.Intn(100) >= invalidPct {
 		return wValid
@@ -1111,6 +1121,36 @@ func genC09(w *bufio.Writer, g *gen, n int) {
 		c.steps = []step{s1, s2}
 		if g.chance(1, 4) {
 			c.steps = append(c.steps, step{cwd: cwd, flags: runFlagSets[g.rng.Intn(5)], args: args})
+		}
+		fmt.Fprintln(w, c.encode())
+	}
+}
+
+// C03 at the level of the binary: which tasks one invocation runs, how often and in which order, as the side-effect log
+// shows it — several task names whose closures overlap, the default task, and `--clean` (with and without task names)
+// when the user has a `clean` task that depends on others
+func genC03(w *bufio.Writer, g *gen, n int) {
+	for i := 0; i < n; i++ {
+		c := g.newCase(specOpts{maxTasks: 5, minCmds: 1, maxCmds: 2, failPct: 0, wantDefault: 1, cleanLate: i%2 == 0, maxVars: 1}, wValid, g.maybeLinked())
+		cwd := cwds[g.rng.Intn(len(cwds))]
+		var names []string
+		for _, t := range c.tasks {
+			names = append(names, t.name)
+		}
+		pick := func(k int) []string {
+			var out []string
+			for j := 0; j < k; j++ {
+				out = append(out, names[g.rng.Intn(len(names))])
+			}
+			return out
+		}
+		c.steps = []step{
+			{cwd: cwd, flags: g.pickFlags([][]string{nil, {"force"}, {"json"}, {"quiet"}}), args: pick(1 + g.rng.Intn(3))},
+			{cwd: cwd, flags: []string{"clean"}, args: pick(g.rng.Intn(3))},
+			{cwd: cwd, flags: g.pickFlags([][]string{{"force"}, {"force", "json"}, nil}), args: pick(g.rng.Intn(3))},
+		}
+		if g.chance(1, 3) {
+			c.steps = append(c.steps, step{cwd: cwd, flags: []string{"clean", "force"}, args: pick(2)})
 		}
 		fmt.Fprintln(w, c.encode())
 	}
@@ -1435,6 +1475,12 @@ func cliGen(w *bufio.Writer, a map[string]string) {
 			genC19Exhaustive(w, g, []int{wValid, wSyntax, wDup})
 			genC19Links(w, g, 1)
 			genC19Random(w, g, 300)
+		}
+	case "C03":
+		if thorough {
+			genC03(w, g, 1500)
+		} else {
+			genC03(w, g, 200)
 		}
 	case "C14":
 		if thorough {
